@@ -54,7 +54,7 @@ def _mode_state(data):
     return st, ins
 
 
-def h_session(I, loop, pop_ups, ext, modes, free_flags):
+def h_session(I, loop, pop_ups, ext, modes, free_flags, _attempt=1):
     import contextlib
     import fcntl
     import io
@@ -85,6 +85,7 @@ def h_session(I, loop, pop_ups, ext, modes, free_flags):
     st = {"due": 0.0, "last_return": 0.0, "skipped_wait_checks": 0, "wait_checks": 0, "n": 0, "version": 0, "drawn": -1, "size": (10, 3), "filter_calls": 0, "fired": None, "mark": 0}
     log = []
     problems = []
+    idle_problems = []
     m, s = pty.openpty()
     fcntl.ioctl(m, termios.TIOCSWINSZ, struct.pack("HHHH", 3, 10, 0, 0))
     inp = os.fdopen(os.dup(s), "r")
@@ -264,6 +265,16 @@ def h_session(I, loop, pop_ups, ext, modes, free_flags):
     try:
         top = Top()
         ml = urwid.MainLoop(top, [], scr, handle_mouse=True, input_filter=filt, unhandled_input=unhandled, event_loop=el if ext else None, pop_ups=pop_ups)
+        orig_idle = ml.entering_idle
+
+        def checked_idle():
+            # deterministic half of "redrawn before the loop next waits": whenever the loop announces it is about to
+            # wait, MainLoop's idle callback leaves the screen showing the current widget state
+            orig_idle()
+            if scr.started and st["drawn"] != st["version"]:
+                idle_problems.append("idle_did_not_redraw(drawn=%s,version=%s)" % (st["drawn"], st["version"]))
+
+        ml.entering_idle = checked_idle
         if ext:
             st["pipe"] = ml.watch_pipe(pipe_cb)
         arm(a_keys)
@@ -313,9 +324,13 @@ def h_session(I, loop, pop_ups, ext, modes, free_flags):
                 pass
         close_loop()
 
+    if problems and _attempt < 3 and all(p.startswith("not_redrawn_before_wait") or p.startswith("drawn_bytes_missing") for p in problems):
+        # the timing-based half ("the alarm was still >= 12 ms away, so the loop had to block and therefore redraw") can be
+        # upset by a descheduled process on a loaded machine: a session is only reported if it fails three times in a row
+        return h_session(I, loop, pop_ups, ext, modes, free_flags, _attempt + 1)
     fired = st["fired"]
     I.note("session", {"loop": loop, "fault_index": f, "kind": "exit" if kind_exit else "error", "fired_in": fired, "callbacks": st["n"],
-                       "outcome": outcome, "log": [list(x) for x in log][-12:], "problems": problems[:4], "wait_checks": st["wait_checks"], "skipped_wait_checks": st["skipped_wait_checks"]})
+                       "outcome": outcome, "log": [list(x) for x in log][-12:], "problems": problems[:4], "attempt": _attempt, "wait_checks": st["wait_checks"], "skipped_wait_checks": st["skipped_wait_checks"]})
     # ---- exception contract ----------------------------------------------------------------------------------------
     I.check("session_terminates_by_fault_or_quit", fired is not None)
     if fired == "natural" or kind_exit:
@@ -359,3 +374,4 @@ def h_session(I, loop, pop_ups, ext, modes, free_flags):
         I.check("fault_free_session_delivers_everything", obs == exp)
         I.check("pipe_data_delivered", (("pipe", b"p") in log) == bool(ext))
     I.check("redrawn_before_each_wait", not problems, info=problems[:3])
+    I.check("idle_callback_redraws_current_state", not idle_problems, info=idle_problems[:3])
